@@ -285,9 +285,9 @@ end Read
 /-! ### dictionaries of references read through -/
 
 section Dict
-variable {α β γ : Type} [DecidableEq α]
+variable {α β γ : Type}
 
-theorem lookup_mapV (f : β → γ) (d : List (α × β)) (k : α) :
+theorem lookup_mapV {_ : BEq α} (f : β → γ) (d : List (α × β)) (k : α) :
     (d.map fun p => (p.1, f p.2)).lookup k = (d.lookup k).map f := by
   induction d with
   | nil => rfl
@@ -298,7 +298,7 @@ theorem lookup_mapV (f : β → γ) (d : List (α × β)) (k : α) :
     | true => rfl
     | false => exact ih
 
-theorem popLoop_mapV (f : β → γ) (n : Nat) (d : List (α × β)) :
+theorem popLoop_mapV [DecidableEq α] (f : β → γ) (n : Nat) (d : List (α × β)) :
     popLoop n (d.map fun p => (p.1, f p.2)) = (((popLoop n d).1).map fun p => (p.1, f p.2), (popLoop n d).2) := by
   induction n generalizing d with
   | zero => rfl
@@ -817,6 +817,182 @@ theorem hStageTables_spec (s : HState κ ι π ν) (v : State κ GroupV CompV ι
           rw [h2, this]
           exact hv.objs key
         · simp only [hd]
+
+/-- the Table C memo: a write to the cached group object that no reader can see -/
+theorem hMemoC_spec (s : HState κ ι π ν) (g : Ref) (ids : List Nat) :
+    (∀ x, view (hMemoC s g ids).heap x = view s.heap x) ∧ (hMemoC s g ids).next = s.next ∧
+    (hMemoC s g ids).tables = s.tables ∧ (hMemoC s g ids).compiled = s.compiled ∧ (hMemoC s g ids).objs = s.objs := by
+  unfold hMemoC
+  split
+  · rename_i b d c hl
+    refine ⟨?_, rfl, rfl, rfl, rfl⟩
+    intro x
+    by_cases hx : x = g
+    · subst hx
+      simp [write, view, hl]
+    · exact view_write_ne _ _ _ _ hx
+  · exact ⟨fun _ => rfl, rfl, rfl, rfl, rfl⟩
+
+theorem keeps_of_view {s s' : HState κ ι π ν} (hv : ∀ x, view s'.heap x = view s.heap x) (hn : s'.next = s.next) : Keeps s s' :=
+  ⟨by rw [hn]; exact Nat.le_refl _, fun x _ => hv x⟩
+
+theorem derefGroup_of_view {h h' : Heap π ν} (hv : ∀ x, view h' x = view h x) (g : Ref) : derefGroup h' g = derefGroup h g :=
+  derefGroup_congr (fun x _ => look_of_view (hv x))
+
+theorem groupB_of_view {h h' : Heap π ν} (hv : ∀ x, view h' x = view h x) (g : Ref) : groupB h' g = groupB h g :=
+  groupB_congr (look_of_view (hv g))
+
+theorem lookup_upd {α : Type} (f : Nat → α) (i : Nat) (a : α) (j : Nat) : upd f i a j = if j = i then a else f j := rfl
+
+theorem dictGet_eq {α β : Type} [DecidableEq α] (d : Dict α β) (k : α) : dictGet d k = d.lookup k := rfl
+
+/-- the compiled-template stage -/
+theorem hStageCompiled_spec (s : HState κ ι π ν) (v : State κ GroupV CompV ι (MsgV π) ν) (c : Nat) (g : Ref)
+    (t : TemplV) (ids : List Nat) (k : κ) (hs : Sep s) (hv : Sim s v) (hg : ∃ p ∈ s.tables, p.2 = g) :
+    Sep (hStageCompiled H s c g t ids k).1 ∧
+    Sim (hStageCompiled H s c g t ids k).1 (stageCompiled H.toParams v c (derefGroup s.heap g) t ids k).1 ∧
+    Keeps s (hStageCompiled H s c g t ids k).1 ∧ (hStageCompiled H s c g t ids k).1.objs = s.objs ∧
+    (hStageCompiled H s c g t ids k).1.tables = s.tables ∧
+    (match (hStageCompiled H s c g t ids k).2 with
+     | .error e => (stageCompiled H.toParams v c (derefGroup s.heap g) t ids k).2 = .error e
+     | .ok oc => (stageCompiled H.toParams v c (derefGroup s.heap g) t ids k).2 =
+         .ok (oc.map (derefComp (hStageCompiled H s c g t ids k).1.heap))) := by
+  unfold hStageCompiled stageCompiled
+  have hcm : H.toParams.cacheMax c = H.cacheMax c := rfl
+  rw [hcm]
+  cases hmx : H.cacheMax c with
+  | none => exact ⟨hs, hv, Keeps.refl s, rfl, rfl, rfl⟩
+  | some mx =>
+    simp only
+    unfold compiledGet
+    have hvc := hv.compiled c
+    rw [abs_compiled] at hvc
+    rw [hvc, lookup_mapV, ← dictGet_eq]
+    cases hl : dictGet (s.compiled c) (ids, k) with
+    | some x =>
+      simp only [hl, Option.map_some]
+      refine ⟨hs, ⟨hv.tables, ?_, hv.objs⟩, Keeps.refl s, (by first | rfl | trivial), (by first | rfl | trivial), ?_⟩
+      · intro c'
+        simp only [lookup_upd]
+        by_cases hc : c' = c
+        · subst hc; simp only [if_true]; rw [abs_compiled]
+        · simp only [hc, if_false]; exact hv.compiled c'
+      · simp [Except.map]
+    | none =>
+      simp only [hl, Option.map_none]
+      have hcp : H.toParams.compile (derefGroup s.heap g) t =
+          (H.compileIds (derefGroup s.heap g) t).map fun x => { descs := x.1.map (lookupD (derefGroup s.heap g).b), code := x.2 } := rfl
+      rw [hcp]
+      cases hci : H.compileIds (derefGroup s.heap g) t with
+      | error e =>
+        simp only [Except.map]
+        refine ⟨hs, ⟨hv.tables, ?_, hv.objs⟩, Keeps.refl s, (by first | rfl | trivial), (by first | rfl | trivial), (by first | rfl | trivial)⟩
+        intro c'
+        simp only [lookup_upd]
+        by_cases hc : c' = c
+        · subst hc; simp only [if_true]; rw [abs_compiled]
+        · simp only [hc, if_false]; exact hv.compiled c'
+      | ok x =>
+        simp only [Except.map]
+        obtain ⟨s1, hs1⟩ : ∃ z, z = allocMany s [HObj.comp (x.1.map (itemOfId (groupB s.heap g))) x.2] := ⟨_, rfl⟩
+        rw [← hs1]
+        have k1 : Keeps s s1 := hs1 ▸ keeps_alloc s _
+        have n1 : s1.next = s.next + 1 := by simp [hs1, allocMany]
+        have d1 : s1.tables = s.tables ∧ s1.compiled = s.compiled ∧ s1.objs = s.objs := by rw [hs1]; exact ⟨rfl, rfl, rfl⟩
+        have hs1' : Sep s1 := sep_keeps hs k1 d1.1 d1.2.1 d1.2.2
+        have ea : abs s1 = abs s := abs_keeps hs k1 d1.1 d1.2.1 d1.2.2
+        obtain ⟨pg, hpg, epg⟩ := hg
+        have hbr : ∀ y : Nat, y ∈ (groupB s.heap g).map (·.2) → y < s.next := by
+          intro y hy
+          obtain ⟨q, hq, rfl⟩ := List.mem_map.1 hy
+          exact hs.closed g (Or.inl ⟨pg, hpg, epg⟩) q.2 (foot_b hq)
+        have lc : s1.heap.lookup s.next = some (HObj.comp (x.1.map (itemOfId (groupB s.heap g))) x.2) := by
+          have := lookup_alloc_ge [HObj.comp (x.1.map (itemOfId (groupB s.heap g))) x.2] s.heap s.next 0 (by simp)
+          simpa [hs1, allocMany] using this
+        have gi : getItems s1.heap s.next = x.1.map (itemOfId (groupB s.heap g)) := by
+          unfold getItems; rw [look_of_lookup_comp lc]
+        have dc : derefComp s1.heap s.next = { descs := x.1.map (lookupD (derefGroup s.heap g).b), code := x.2 } := by
+          unfold derefComp getList compCode
+          rw [gi, look_of_lookup_comp lc, List.map_map]
+          congr 1
+          apply List.map_congr_left
+          intro id _
+          simp only [Function.comp]
+          rw [derefItem_itemOfId, getDesc_bm_keeps hbr k1]
+        have fc : ∀ y : Nat, y ∈ footOf s1.heap s.next → y < s1.next := by
+          intro y hy
+          have e_b : groupB s1.heap s.next = [] := by unfold groupB; rw [look_of_lookup_comp lc]
+          have e_d : groupD s1.heap s.next = [] := by unfold groupD; rw [look_of_lookup_comp lc]
+          have e_m : msgInner s1.heap s.next = [] := by unfold msgInner; simp [view, lc]
+          unfold footOf at hy
+          rw [gi, e_b, e_d, e_m] at hy
+          simp only [List.map_nil, List.flatMap_nil, List.append_nil, List.mem_cons] at hy
+          rcases hy with rfl | hy
+          · omega
+          · have := hbr y (itemRefs_itemOfId hy); omega
+        by_cases hpos : 0 < mx
+        · simp only [hpos, if_true, List.length_map]
+          obtain ⟨d', hd'⟩ : ∃ d', d' = (if mx ≤ (s.compiled c).length then (s.compiled c).dropLast else s.compiled c) := ⟨_, rfl⟩
+          have hd'' : (if mx ≤ (s.compiled c).length then ((s.compiled c).map fun p => (p.1, derefComp s.heap p.2)).dropLast
+              else (s.compiled c).map fun p => (p.1, derefComp s.heap p.2)) = d'.map fun p => (p.1, derefComp s.heap p.2) := by
+            rw [hd']
+            by_cases hm : mx ≤ (s.compiled c).length
+            · simp only [hm, if_true, List.map_dropLast]
+            · simp only [hm, if_false]
+          rw [hd'', ← hd']
+          have hsub : ∀ p ∈ d', p ∈ s.compiled c := by
+            intro p hp
+            rw [hd'] at hp
+            by_cases hm : mx ≤ (s.compiled c).length
+            · simp only [hm, if_true] at hp; exact (List.dropLast_sublist _).subset hp
+            · simp only [hm, if_false] at hp; exact hp
+          have hdm : (d'.map fun p => (p.1, derefComp s1.heap p.2)) = d'.map fun p => (p.1, derefComp s.heap p.2) := by
+            apply List.map_congr_left
+            intro p hp
+            rw [(keeps_root (hs.closed p.2 (Or.inr (Or.inl ⟨c, p, hsub p hp, rfl⟩))) k1).2.1]
+          refine ⟨?_, ⟨?_, ?_, ?_⟩, k1, d1.2.2, d1.1, ?_⟩
+          · refine Sep.of hs1' rfl rfl ?_ hs1'.keyOfRoot
+            intro r hr
+            rcases hr with h1 | ⟨c', p, hp, e⟩ | h3
+            · exact Or.inl (Or.inl h1)
+            · simp only [lookup_upd] at hp
+              by_cases hc : c' = c
+              · subst hc
+                simp only [if_true, List.mem_append, List.mem_singleton] at hp
+                rcases hp with hp | rfl
+                · exact Or.inl (Or.inr (Or.inl ⟨c', p, d1.2.1 ▸ hsub p hp, e⟩))
+                · right; intro y hy; exact fc y (by have e' : s.next = r := e; rw [e']; exact hy)
+              · simp only [hc, if_false] at hp
+                exact Or.inl (Or.inr (Or.inl ⟨c', p, d1.2.1 ▸ hp, e⟩))
+            · exact Or.inl (Or.inr (Or.inr h3))
+          · show v.tables = (abs s1).tables
+            rw [ea]; exact hv.tables
+          · intro c'
+            simp only [lookup_upd, abs_compiled]
+            by_cases hc : c' = c
+            · subst hc
+              simp only [if_true, List.map_append, List.map_cons, List.map_nil, dc, hdm]
+            · simp only [hc, if_false]
+              have := congrFun (congrArg State.compiled ea) c'
+              rw [abs_compiled, abs_compiled, d1.2.1] at this
+              rw [this]; exact hv.compiled c'
+          · intro key
+            show v.objs.lookup key = (abs s1).objs.lookup key
+            rw [ea]; exact hv.objs key
+          · simp only [Option.map_some, dc]
+        · simp only [hpos, if_false]
+          refine ⟨hs1', ⟨?_, ?_, ?_⟩, k1, d1.2.2, d1.1, ?_⟩
+          · show v.tables = (abs s1).tables
+            rw [ea]; exact hv.tables
+          · intro c'
+            simp only [lookup_upd]
+            by_cases hc : c' = c
+            · subst hc; simp only [if_true]; rw [ea]; rw [abs_compiled]
+            · simp only [hc, if_false]; rw [ea]; exact hv.compiled c'
+          · intro key
+            show v.objs.lookup key = (abs s1).objs.lookup key
+            rw [ea]; exact hv.objs key
+          · simp only [Option.map_some, dc]
 
 end Proc
 
